@@ -651,6 +651,57 @@ def sweep_constant(rec, name, P, ref, passes, reset_ps, fs):
     return stats
 
 
+class FixedTap(object):
+    """Observed, NOT asserted (the statement speaks about the mpf values only): how far the fixed-point values handed out
+    by the constant_memo wrappers are from floor(c 2^prec).  The maxima go to the evidence; they make visible what the
+    20 guard bits of def_mpf_constant hide from the mpf level (e.g. a memo without head-room, fewer guard bits inside a
+    fixed-point routine, a rounding instead of a truncating memo shift)."""
+    NAMES = {'pi_fixed': 'pi', 'e_fixed': 'e', 'ln2_fixed': 'ln2', 'ln10_fixed': 'ln10', 'phi_fixed': 'phi',
+             'euler_fixed': 'euler', 'catalan_fixed': 'catalan', 'apery_fixed': 'apery', 'khinchin_fixed': 'khinchin'}
+
+    def __init__(self, rec, refs):
+        from vf import instrument as I
+        self.rec, self.refs = rec, refs
+        self.open = {}
+        g = I.resolve('mpmath.libmp.libelefun:pi_fixed')
+        self.tap = I.ReturnTap({g.__code__: 'g'} if g is not None else {}, self.on_return, self.on_start)
+        self.n = 0
+
+    def __enter__(self):
+        self.tap.install()
+        return self
+
+    def __exit__(self, *a):
+        self.tap.uninstall()
+        self.rec.event('fixed-point values observed at the constant_memo wrapper', self.n)
+        return False
+
+    def on_start(self, name, code, loc):
+        import sys
+        f = loc.get('f')
+        self.open[id(sys._getframe(2))] = (getattr(f, '__name__', None), loc.get('prec'))
+
+    def on_return(self, name, code, ret):
+        import sys
+        info = self.open.pop(id(sys._getframe(2)), None)
+        if not info:
+            return
+        cname = self.NAMES.get(info[0])
+        ref = self.refs.get(cname)
+        prec = info[1]
+        if ref is None or not isinstance(ret, int) or not isinstance(prec, int) or prec > ref.W - 8:
+            return
+        self.n += 1
+        sh = ref.W - prec
+        fl = ref.lo >> sh
+        if fl != (ref.hi >> sh):
+            return
+        dev = abs(ret - fl)
+        self.rec.maximum('observed, not asserted: |%s_fixed(prec) - floor(%s 2^prec)| in units' % (cname, cname), dev, {'prec': prec})
+        if dev:
+            self.rec.event('observed, not asserted: fixed-point value that is not the true floor')
+
+
 ANCHORS = ['mpmath.libmp.libelefun:pi_fixed',                                  # the shared constant_memo wrapper g
            r'mpmath.libmp.libelefun:pi_fixed@return f\.memo_val >> \(memo_prec-prec\)',     # memo hit
            r'mpmath.libmp.libelefun:pi_fixed@f\.memo_val = f\(newprec',                     # memo miss (recomputation)
@@ -677,7 +728,8 @@ def run_sweep(shard, rec):
     fs = memo_functions()
     if not fs:
         rec.note('memo reset unavailable', 'no constant_memo closure with memo_prec found; reset pass skipped')
-    with AnchorCount(rec, ANCHORS):
+    fixed_refs = {}
+    with AnchorCount(rec, ANCHORS), FixedTap(rec, fixed_refs):
         for name in shard['names']:
             P = min(PMAX[tier], PCAP[tier].get(name, 10**9))
             t0 = time.time()
@@ -687,6 +739,10 @@ def run_sweep(shard, rec):
             if ref is None:
                 rec.undecided('no consensus reference for ' + name, {'c': name, 'P': P})
                 continue
+            if ref.tier == 'integer-enclosure':
+                fixed_refs[name] = ref
+                if name == 'degree':
+                    fixed_refs['pi'] = make_ref('pi', P, rec)
             if name in CHEAP:
                 reset_ps = list(range(1, P + 1))
             else:
